@@ -189,7 +189,7 @@ def cases(draw, tier):
     spec = draw(gen.machine_spec(max_states=4, max_extra=5, providers=provs, async_mode=async_mode, sends=draw(st.sampled_from([False, False, True])),
                                  attach=("conv", "name", "func")))
     bundles = draw(gen.add_bundle(spec))
-    vkind = draw(st.sampled_from(["ids", "ids", "int", "intenum-like", "str"]))
+    vkind = draw(st.sampled_from(["ids", "ids", "int", "intenum-like", "str", "enum-instance", "intenum-instance"]))
     if vkind != "ids":
         from .c10 import values_for
 
